@@ -77,11 +77,16 @@ func concValueBody(name string, updatesOnly bool, writes int) func() {
 	}
 }
 
-func concCollectionBody(name string, updatesOnly bool) func() {
+func concCollectionBody(name string, updatesOnly, lossyNeighbour bool) func() {
 	return func() {
 		col := resource.NewCollection(resource.WithInitialRecord("a", val{0, "i"}.msg()))
 		ctx, cancel := context.WithCancel(context.Background())
 		defer cancel()
+		if lossyNeighbour {
+			// an ordinary subscriber (no backpressure) that was there first and does not keep up: what is folded
+			// together for IT is its own business - the backpressured subscriber's events are exact all the same
+			col.Pull(ctx, resource.WithUpdatesOnly(true))
+		}
 		show := func(c *resource.CollectionChange) string {
 			s := func(m interface{ GetDefaultInt32() int32 }) string { return fmt.Sprint(m.GetDefaultInt32()) }
 			o, n := "-", "-"
@@ -112,7 +117,24 @@ func concCollectionBody(name string, updatesOnly bool) func() {
 			fmt.Sprintf("%s:b:5>-", types.ChangeType_REMOVE),
 		}
 		states := []string{"a=0", "a=0,b=5", "a=1,b=5", "a=1"}
+		if lossyNeighbour {
+			// three writes to ONE item: the second waits in the neighbour's queue when the third arrives
+			script = []string{
+				fmt.Sprintf("%s:a:0>1", types.ChangeType_UPDATE),
+				fmt.Sprintf("%s:a:1>2", types.ChangeType_UPDATE),
+				fmt.Sprintf("%s:a:2>3", types.ChangeType_UPDATE),
+			}
+			states = []string{"a=0", "a=1", "a=2", "a=3"}
+		}
 		go func() {
+			if lossyNeighbour {
+				for k := 1; k <= 3; k++ {
+					if _, err := col.Update("a", val{k, "w"}.msg()); err != nil {
+						verifrt.Logf("FAIL concurrent-write %s ## Update: %v", name, err)
+					}
+				}
+				return
+			}
 			if _, err := col.Add("b", val{5, "w"}.msg()); err != nil {
 				verifrt.Logf("FAIL concurrent-write %s ## Add: %v", name, err)
 			}
@@ -157,6 +179,8 @@ func registerConcurrent(h *hx.H) {
 			h.Sched(name, q, -1, concValueBody(name, uo, n), hx.StdOracle)
 		}
 		name := fmt.Sprintf("concurrent/collection/updatesOnly=%v/add-b;update-a;delete-b", uo)
-		h.Sched(name, -1, -1, concCollectionBody(name, uo), hx.StdOracle)
+		h.Sched(name, -1, -1, concCollectionBody(name, uo, false), hx.StdOracle)
+		name = fmt.Sprintf("concurrent/collection/updatesOnly=%v/update-a x3/+lagging-subscriber-without-backpressure", uo)
+		h.Sched(name, 2, -1, concCollectionBody(name, uo, true), hx.StdOracle)
 	}
 }
